@@ -25,7 +25,7 @@ open RV.Arith IntOrPct RV.Traffic RV.ClosedLoopBG RV.Oracle.ClosedLoopBG RV.Lemm
 open RV.ClosedLoop (CBr Label CS)
 open RV.CtlBlueGreen (Workload HPA maxReady)
 open RV.RolloutSM (World WL Sub StepResult reconcile inRolling handleFinalizer calculateStatus)
-open RV.ExecutorX (bgPlane bgInfo mkInfo syncVia reconcileX_cases syncStatusX_val)
+open RV.ExecutorX (bgPlane bgInfo mkInfo syncVia reconcileX_cases syncStatusX_val entryOf bgBR bgReady)
 open RV.Executor (BR Status Event syncDecide refreshStatus isPlanFinalizing isPlanChanged isPlanUnhealthy signalRecalculate resetStatus)
 
 /-! ## 0. the closed loop of `RV.ClosedLoop` is an instance -/
@@ -756,6 +756,143 @@ theorem bg_refuses_continuous_br_partial (s s' : BS) (hsup : superseded s = true
               rw [hw]; exact bgLand_proj _
             · rw [hobr, hb]; rfl
           · rw [hstop] at hns; cases hns
+
+/-! ## 9. C09 — no reachable state crashes a reconciler (partial) -/
+
+/-- the ControllerFinder never crashes in a reachable state (`spec.replicas` is there) -/
+theorem bg_finder_total (u : User) (s0 s : BS) (ls : List Label) (h0 : Init u s0) (hr : Reach s0 ls s) :
+    ∃ w, roWorld bgLoop s = some w := by
+  have hw := bg_world_inv u s0 s ls h0 hr
+  unfold worldInv at hw
+  cases hwl : s.world.wl with
+  | none => rw [hwl] at hw; cases hw
+  | some wl =>
+    rw [hwl] at hw
+    simp only [Bool.and_eq_true] at hw
+    obtain ⟨c1, _, _⟩ := cfgInv_parts u wl hw.1
+    unfold cfgBase at c1
+    simp only [Bool.and_eq_true, decide_eq_true_eq, Bool.not_eq_true'] at c1
+    unfold roWorld
+    have : bgLoop.view s.world = bgView s.world := rfl
+    rw [this]
+    unfold bgView
+    rw [hwl]
+    simp only [c1.1.1.1]
+    exact ⟨_, rfl⟩
+
+/-- **`bg_total_partial`** (C09) — in every state of every history from an initial state:
+    (i) no transition other than the two reconcilers can crash (for every state at all);
+    (ii) the Rollout reconcile does not crash unless the world the finder hands it is `corrupted` in the sense of
+         `RV.Props.Reconcile.reconcile_total` (a Progressing condition without reason, an InRolling rollout without sub-status or with a
+         step index outside the plan, a BatchRelease without batch partition while rolling) — the finder itself never crashes;
+    (iii) the BatchRelease reconcile can crash only in `UpgradeBatch` or the readiness check, and only when the persisted current batch
+          lies outside the plan (`CalculateBatchContext` indexes `Batches[currentBatch]`).
+    partial: that reachable states are never `corrupted` and that `0 ≤ currentBatch < #batches` whenever the executor indexes the plan
+    needs the Rollout-side invariants (step index, partition = step − 1) lifted to this loop; on the walks of the real controllers the
+    oracle `C09.bg_total` (no panic in any transition) is evaluated instead. -/
+theorem bg_total_partial (u : User) (s0 s : BS) (ls : List Label) (h0 : Init u s0) (hr : Reach s0 ls s) :
+    (∀ l, l ≠ .ro → l ≠ .br → bgStep s l ≠ none) ∧
+    (∀ w, roWorld bgLoop s = some w → RV.Oracle.RolloutSM.corrupted w = false → bgStep s .ro ≠ none) ∧
+    (bgStep s .br = none → ∃ b, s.br = some b ∧ entryOf (Executor.withFinalizer (RV.ClosedLoop.exBr b)) = none) := by
+  refine ⟨?_, ?_, ?_⟩
+  · intro l h1 h2
+    cases l <;> first | exact absurd rfl h1 | exact absurd rfl h2 | (unfold bgStep; simp [step])
+  · intro w hw hc
+    unfold bgStep
+    simp only [step, stepRo]
+    split
+    · simp
+    · rw [hw]
+      dsimp only
+      have := RV.Props.Reconcile.reconcile_total w hc
+      cases hrec : RolloutSM.reconcile w with
+      | panic => exact absurd hrec this
+      | val r => simp
+  · intro hs
+    unfold bgStep at hs
+    simp only [step, stepBr] at hs
+    split at hs
+    · cases hs
+    · rename_i b hb
+      refine ⟨b, hb, ?_⟩
+      split at hs
+      · rename_i hpanic
+        -- the world invariant: the CloneSet exists and has `spec.replicas`
+        have hw := bg_world_inv u s0 s ls h0 hr
+        unfold worldInv at hw
+        cases hwl : s.world.wl with
+        | none => rw [hwl] at hw; cases hw
+        | some wl =>
+          rw [hwl] at hw
+          simp only [Bool.and_eq_true] at hw
+          obtain ⟨c1, _, _⟩ := cfgInv_parts u wl hw.1
+          unfold cfgBase at c1
+          simp only [Bool.and_eq_true, decide_eq_true_eq, Bool.not_eq_true'] at c1
+          have hrep : wl.replicas = some u.replicas := c1.1.1.1
+          have hpw : (bgProj s.world).w.wl = some wl := hwl
+          have hbi : bgInfo .cloneSet (bgProj s.world) =
+              .val (some (mkInfo u.replicas s.world.generation s.world.observedGeneration wl.status.replicas wl.status.updated
+                wl.status.updatedReady s.world.updateRevision s.world.currentRevision)) := by
+            unfold bgInfo; rw [hpw]; simp only [hrep]; rfl
+          have hpa : ∀ (op : CtlBlueGreen.Op) (x : CtlBlueGreen.BR), op ≠ .upgrade →
+              RV.Oracle.CtlBlueGreen.panicAllowed op (bgProj s.world).w x = false := by
+            intro op x hop
+            unfold RV.Oracle.CtlBlueGreen.panicAllowed
+            rw [hpw]
+            simp [hrep, hop]
+          cases he : entryOf (Executor.withFinalizer (RV.ClosedLoop.exBr b)) with
+          | none => rfl
+          | some e =>
+          exfalso
+          have hpl : bgLoop.plane = bgPlane .cloneSet := rfl
+          have hpj : bgLoop.proj s.world = bgProj s.world := rfl
+          rw [hpl, hpj] at hpanic
+          rcases RV.Props.ExecutorX.x_panics_only_in_plane (bgPlane .cloneSet) _ _ hpanic with
+            ⟨ns, h⟩ | ⟨ns, h⟩ | ⟨ns, h⟩ | ⟨ns, h⟩ | h
+          · simp only [bgPlane, syncVia] at h
+            split at h
+            · cases h
+            · rw [hbi] at h; cases h
+          · simp only [bgPlane] at h
+            obtain ⟨out, hout⟩ := RV.Lemmas.CtlBlueGreen.no_panic .cloneSet .init (bgProj s.world).w
+              (bgBR (Executor.withFinalizer (RV.ClosedLoop.exBr b))) CtlBlueGreen.noFault (hpa _ _ (by decide))
+            simp only [CtlBlueGreen.call] at hout
+            rw [hout, hbi] at h
+            dsimp only at h
+            split at h <;> cases h
+          · simp only [bgPlane] at h
+            have hpu : RV.Oracle.CtlBlueGreen.panicAllowed .upgrade (bgProj s.world).w
+                (bgBR (Executor.withFinalizer (RV.ClosedLoop.exBr b))) = false := by
+              unfold RV.Oracle.CtlBlueGreen.panicAllowed
+              rw [hpw]
+              have : CtlBlueGreen.entryOf (bgBR (Executor.withFinalizer (RV.ClosedLoop.exBr b))) = some e := he
+              simp [hrep, this]
+            obtain ⟨out, hout⟩ := RV.Lemmas.CtlBlueGreen.no_panic .cloneSet .upgrade (bgProj s.world).w _ CtlBlueGreen.noFault hpu
+            simp only [CtlBlueGreen.call] at hout
+            rw [hout] at h
+            cases h
+          · simp only [bgPlane] at h
+            have hready : ∃ v, bgReady .cloneSet (Executor.withFinalizer (RV.ClosedLoop.exBr b)) (bgProj s.world) = .val v := by
+              unfold bgReady
+              rw [hbi]
+              dsimp only
+              split
+              · exact ⟨_, rfl⟩
+              · rw [hpw]
+                dsimp only
+                unfold RV.BatchCtx.calcCtx
+                rw [he]
+                exact ⟨_, rfl⟩
+            obtain ⟨v, hv⟩ := hready
+            rw [hv] at h
+            cases h
+          · simp only [bgPlane] at h
+            obtain ⟨out, hout⟩ := RV.Lemmas.CtlBlueGreen.no_panic .cloneSet .fin (bgProj s.world).w
+              (bgBR (Executor.withFinalizer (RV.ClosedLoop.exBr b))) CtlBlueGreen.noFault (hpa _ _ (by decide))
+            simp only [CtlBlueGreen.call] at hout
+            rw [hout] at h
+            cases h
+      · cases hs
 
 /-! ## 8. non-vacuity and witnesses: a concrete rollout, concrete histories (kernel evaluation of the model — tests, and the
     `_full_FALSE` witnesses of the findings; each witness history is replayed on the REAL controllers from `corpus/closedloopbg/`) -/
